@@ -535,3 +535,36 @@ Proof.
   - unfold is_closed in *. rewrite Ec in H1. cbn in H1. apply orb_prop in H1. destruct H1 as [H1|H1]; [|congruence].
     apply Nat.eqb_eq in H1. subst. eauto.
 Qed.
+
+(* ---------- the extension with pending cancellations adds no behaviour to the base system *)
+Lemma xstep_base x a x' :
+  xstep x a = Some x' -> base x' = base x \/ exists a', nstep (base x) a' = Some (base x').
+Proof.
+  destruct a as [i|i]; cbn [xstep].
+  - destruct (nth_error (threads (base x)) i) as [p|] eqn:Ep.
+    + assert (Hgen : option_map (fun s => mkX s (canc x)) (tstep (base x) i) = Some x' ->
+                     base x' = base x \/ exists a', nstep (base x) a' = Some (base x')).
+      { destruct (tstep (base x) i) as [s|] eqn:Es; [|discriminate]. cbn. intros E. injection E as <-. right. exists (Step i). exact Es. }
+      destruct p; try exact Hgen.
+      destruct (is_canc x i && negb (is_closed (base x) b)); [|exact Hgen].
+      destruct (tcancel (base x) i) as [s|] eqn:Es; [|discriminate]. cbn. intros E. injection E as <-. right. exists (Cancel i). exact Es.
+    + destruct (tstep (base x) i) as [s|] eqn:Es; [|discriminate]. cbn. intros E. injection E as <-. right. exists (Step i). exact Es.
+  - destruct (nth_error (threads (base x)) i) as [p|]; [|discriminate].
+    destruct p; try discriminate; try (intros E; injection E as <-; left; reflexivity).
+    destruct (tcancel (base x) i) as [s|] eqn:Es; [|discriminate]. cbn. intros E. injection E as <-. right. exists (Cancel i). exact Es.
+Qed.
+
+Theorem xrun_reach next ts : forall sched x,
+  reach (ninit next ts) (base x) -> reach (ninit next ts) (base (xrun x sched)).
+Proof.
+  induction sched as [|a r IH]; intros x Hx; [exact Hx|]. cbn [xrun].
+  destruct (xstep x a) as [x'|] eqn:E; [|now apply IH]. apply IH.
+  destruct (xstep_base x a x' E) as [->|(a' & Ha')]; [exact Hx|]. eapply reach_step; eassumption.
+Qed.
+
+(* hence the invariant, and with it every theorem above, holds after any schedule with early cancellations *)
+Corollary xrun_inv next ts sched :
+  forallb entry ts = true -> ninv (base (xrun (mkX (ninit next ts) []) sched)).
+Proof.
+  intros He. eapply reach_inv; [exact He|]. apply xrun_reach. apply reach_refl.
+Qed.
